@@ -774,7 +774,11 @@ def gen_package(rng: random.Random, idx: int, *, style="plaintext", nmods=3, ree
             m.typevars.append(gtv)
             m.typevar_decls = {**(m.typevar_decls or {}), gtv: decl}
             gc = Cls(names.fresh("cls"), bases=[f"Generic[{gtv}]"], tparams=[gtv])
-            kind = rng.randrange(4)
+            kind = rng.randrange(5)
+            if kind == 4:
+                # an attribute typed by the class's own type variable, and a method that does not use it
+                gc.attrs.append(Attr(names.fresh("attr"), Ann("typevar", name=gtv), None))
+                gc.methods.append(Func(names.fresh("func"), [Param(names.fresh("param"), "pos", Ann("int"))], ret=Ann("int")))
             if kind == 0:
                 gc.attrs.append(Attr(names.fresh("attr"), Ann("int"), "1"))
             elif kind == 1:
@@ -934,4 +938,22 @@ def gen_package(rng: random.Random, idx: int, *, style="plaintext", nmods=3, ree
                         om.funcs.append(Func(pname, [], ret=Ann("int")))
                     else:
                         om.classes[0].methods.append(Func(pname, [], ret=Ann("int")))
+    # one class name defined (and instantiated) in two modules, and a third module that derives from one of them through a
+    # module alias: the name is in the alias table with two candidates, neither of them in the deriving module
+    pubmods = [m for m in mods if m.dotted and not any(seg.startswith("_") for seg in m.dotted.split(".")[1:])]
+    if reuse and len(pubmods) >= 2 and rng.random() < 0.4:
+        ma, mb = rng.sample(pubmods, 2)
+        bname = f"SharedBase{names.num()}{tag}"
+        for mm in (ma, mb):
+            mm.classes.append(Cls(bname, methods=[Func(names.fresh("func"), [], ret=Ann("int"))]))
+            mm.funcs.append(Func(names.fresh("func"), [], ret=Ann("int"), body=f"made = {bname}()\nreturn 1 if made else 0"))
+        udir = ma.path.rsplit("/", 1)[0]
+        uname = names.fresh("mod").lstrip("_")
+        user = Module(f"{udir}/{uname}.py", f"{ma.dotted.rsplit('.', 1)[0]}.{uname}")
+        alias = f"sh{names.num()}"
+        user.imports.append(f"import {ma.dotted} as {alias}")
+        sub = Cls(names.fresh("cls"), bases=[f"{alias}.{bname}"], base_refs=[(bname, ma.dotted, False)],
+                  methods=[Func(names.fresh("func"), [], ret=Ann("int"))])
+        user.classes.append(sub)
+        mods.append(user)
     return Package(root, mods, inits, style)
